@@ -1411,4 +1411,69 @@ theorem diff_copies_when_shared (sw tw : Walk) (fs ft : Nat → Id) (hasM : Bool
 
 end Wrapper
 
+/-! ### the parent-link invariant (C08) and copies -/
+
+/-- the `.parent` pointer of every object is its structural owner (propositional form, all ids) -/
+def LinkInv (S : Tree) : Prop := ∀ c, S.parent c = S.structParent c
+
+/-- `T` is a structural copy of `S` — what `__deepcopy__` builds BEFORE any statement about `.parent` pointers:
+    same shape and payload, fresh objects -/
+structure IsStructCopy (S T : Tree) (φ : Id → Id) : Prop where
+  inj : ∀ a b, φ a = φ b → a = b
+  root : T.root = φ S.root
+  size : T.size = S.size
+  kids : ∀ x, T.kids (φ x) = (S.kids x).map φ
+  cls : ∀ x, T.cls (φ x) = S.cls x
+  ty : ∀ x, T.ty (φ x) = S.ty x
+  ignored : ∀ x, T.ignored (φ x) = S.ignored x
+  nel : ∀ x, T.nel (φ x) = S.nel x
+  eqc : ∀ x, T.eqc (φ x) = S.eqc x
+  txt : ∀ x, T.txt (φ x) = S.txt x
+
+theorem bfs_struct_copy {S T : Tree} {φ : Id → Id} (hc : IsStructCopy S T φ) : T.bfs = S.bfs.map φ := by
+  simp only [Tree.bfs, hc.root, hc.size]
+  have key : ∀ fuel q, bfsGo T.kids fuel (q.map φ) = (bfsGo S.kids fuel q).map φ := by
+    intro fuel
+    induction fuel with
+    | zero => intro q; simp [bfsGo]
+    | succ n ih =>
+      intro q
+      cases q with
+      | nil => simp [bfsGo]
+      | cons x q =>
+        simp only [List.map_cons, bfsGo]
+        rw [hc.kids, ← List.map_append, ih]
+  simpa using key S.size [S.root]
+
+/-- under the link invariant on BOTH trees, a structural copy also copies the parent pointers -/
+theorem parent_of_struct_copy {S T : Tree} {φ : Id → Id} (hc : IsStructCopy S T φ) (hS : LinkInv S) (hT : LinkInv T)
+    (x : Id) : T.parent (φ x) = (S.parent x).map φ := by
+  rw [hT (φ x), hS x, Tree.structParent, Tree.structParent, bfs_struct_copy hc, List.find?_map]
+  have hfun : ((fun p => (T.kids p).contains (φ x)) ∘ φ) = fun p => (S.kids p).contains x := by
+    funext p
+    simp only [Function.comp, hc.kids]
+    by_cases hx : x ∈ S.kids p
+    · have : φ x ∈ (S.kids p).map φ := List.mem_map.mpr ⟨x, hx, rfl⟩
+      simp [hx, this]
+    · have : φ x ∉ (S.kids p).map φ := by
+        intro h
+        obtain ⟨y, hy, he⟩ := List.mem_map.mp h
+        exact hx (hc.inj _ _ he ▸ hy)
+      simp [hx, this]
+  rw [hfun]
+
+theorem isCopy_of_struct {S T : Tree} {φ : Id → Id} (hc : IsStructCopy S T φ) (hS : LinkInv S) (hT : LinkInv T) :
+    IsCopy S T φ where
+  inj := hc.inj
+  root := hc.root
+  size := hc.size
+  kids := hc.kids
+  parent := parent_of_struct_copy hc hS hT
+  cls := hc.cls
+  ty := hc.ty
+  ignored := hc.ignored
+  nel := hc.nel
+  eqc := hc.eqc
+  txt := hc.txt
+
 end SqlglotModel.Diff
